@@ -92,6 +92,11 @@ CATALOGUE = [
     ("tape-name-too-long", ["{I}«make_wav \"x.wav\", \"seventeen chars..\""], "too-long-string", "error", ("S",)),
     ("user-error", ["{I}«.error something is wrong"], "user-error", "error", ("S",)),
     ("label-in-repeat", ["{I}«.repeat 2 { »inrep: nop }"], "unexpected-symbol-definition", "error", ("T",)),
+    ("label-in-repeat-once", ["{I}«.repeat 1 { »inrep1: nop }"], "unexpected-symbol-definition", "error", ("T",)),
+    ("assignment-in-repeat-once", ["{I}«.repeat 1 { »xr7q = 5 }"], "unexpected-symbol-definition", "error", ("T",)),
+    ("local-label-in-repeat-once", ["{I}«.repeat 1 { »5$: nop }"], "unexpected-symbol-definition", "error", ("T",)),
+    ("assignment-in-repeat", ["{I}«.repeat 3 { »xr8q = 5 }"], "unexpected-symbol-definition", "error", ("T",)),
+    ("label-in-nested-repeat", ["{I}«.repeat 2 { .repeat 1 { »inrep2: nop } }"], "unexpected-symbol-definition", "error", ("T",)),
     ("unterminated-string", ["{I}«.ascii »\"abc"], None, "critical", ()),   # the string swallows the following lines: same file only
     ("bad-escape", ["{I}«.ascii \"a»\\qb\""], "invalid-escape", "error", ("T",)),
     ("register-named-label", ["{I}«»r0: nop"], "reserved-name", "error", ("T",)),
